@@ -177,12 +177,12 @@ func C04(c *Ctx) {
 				}
 				key := FnKey(fn) + ":nomatch"
 				for _, m := range ms {
-					av := core.NewReachAvoid(fn, map[*ssa.BasicBlock]bool{m.Instr.Block(): true})
+					av := c.ReachAvoid(fn, map[*ssa.BasicBlock]bool{m.Instr.Block(): true})
 					d := av.At(a.Block())
-					r.Check("C04-8", key+":aftergetters", c.InstrPos(a), d.Implies(c.M(false, isField(fldGetter))), "no-match verdict reachable without running the getter pass while Getter is on; reach avoiding the pass: "+d.Describe(c.O))
+					r.Check("C04-8", key+":aftergetters", c.InstrPos(a), d.Implies(c.M(false, isField(fldGetter)), c.M(false, eqConst(isField(fldRule), `"name"`))), "no-match verdict reachable without running the getter pass while Getter is on and Rule == name; reach avoiding the pass: "+d.Describe(c.O))
 				}
 				for _, f := range fs {
-					av := core.NewReachAvoid(fn, map[*ssa.BasicBlock]bool{f.Instr.Block(): true})
+					av := c.ReachAvoid(fn, map[*ssa.BasicBlock]bool{f.Instr.Block(): true})
 					d := av.At(a.Block())
 					r.Check("C04-8", key+":afterfields", c.InstrPos(a), d.Implies(c.M(false, eqConst(isField(fldRule), `"name"`))), "no-match verdict reachable without running the field pass while Rule == name; reach avoiding the pass: "+d.Describe(c.O))
 				}
@@ -290,8 +290,8 @@ func C04(c *Ctx) {
 func (c *Ctx) candidateT(d core.DNF, x string) []string {
 	set := map[string]bool{}
 	for _, cj := range d {
-		for v := range cj {
-			t := c.O.Of(v)
+		for _, l := range cj {
+			t := c.O.Of(l.V)
 			if (t.IsCallTo(fnAssignable) || t.IsCallTo(fnConvertible)) && len(t.Args) == 2 && exprTypeOf(x)(t.Args[0]) {
 				set[t.Args[1].String()] = true
 			}
@@ -396,7 +396,8 @@ func (c *Ctx) c04Predicates() {
 		pos := c.Pos(fn.Pos())
 		lookupString := func(t *core.Term) bool {
 			return t.Contains(func(s *core.Term) bool {
-				return s.IsCallTo("go/types.LookupFieldOrMethod") && len(s.Args) == 4 && s.Args[3].Is("const", `"String"`)
+				// addressable must be false: the rendered receiver may be a call result (getter), which cannot take a pointer method
+				return s.IsCallTo("go/types.LookupFieldOrMethod") && len(s.Args) == 4 && s.Args[3].Is("const", `"String"`) && s.Args[1].Is("const", "false")
 			})
 		}
 		lenIs := func(tuple, k string) func(*core.Term) bool {
